@@ -2,6 +2,7 @@ import FitProps.CsvLemmas
 import FitProps.CsvRoundtripLemmas
 import FitProps.CsvFullLemmas
 import FitProps.CsvTextLemmas
+import FitProps.CsvTextFinalLemmas
 /-!
 # C19 — fitconv: FIT to CSV and back preserves messages and field values
 
@@ -365,5 +366,94 @@ theorem C19_copy_long_line_fixed (a b : Txt) (ha : commasOutside false a ≤ 2) 
     · rw [hz]; omega
     · exact hb)
   simpa using this
+
+/-! ## the text layer: integers, quoting, lines, the round trip through the text -/
+
+/-- **`parse (format n) = n` for every integer base type**: the decimal text `strconv.FormatUint` / `FormatInt` print and
+`strconv.ParseUint(s, 0, w)` / `ParseInt(s, 0, w)` as `parseValue` calls them (bit sizes 8, 16, 32, 64) — every value of
+the type comes back, the minimum and the maximum included; a value outside the type is a range error, a negative
+number is a syntax error for the unsigned types. For every `n`, `i` and `w` (no bound on the number of digits). -/
+theorem C19_int_text_roundtrip (w : Nat) (hw : 0 < w) :
+    (∀ n : Nat, parseUintT w (natDigits n) = if n < 2 ^ w then .ok n else .err) ∧
+    (∀ i : Int, parseIntT w (intText i) = if inRangeS w i then .ok i else .err) ∧
+    (∀ i : Int, parseUintT w (intText i) = if inRangeU w i then .ok i.toNat else .err) :=
+  ⟨parseUintT_natDigits w, parseIntT_intText w hw, parseUintT_intText w⟩
+
+/-- the extremes of every integer base type, as texts -/
+example : parseIntT 64 (txt "-9223372036854775808") = .ok (-9223372036854775808) ∧ parseIntT 64 (txt "9223372036854775808") = .err ∧
+    parseUintT 64 (txt "18446744073709551615") = .ok 18446744073709551615 ∧ parseUintT 64 (txt "18446744073709551616") = .err ∧
+    parseIntT 8 (txt "-128") = .ok (-128) ∧ parseIntT 8 (txt "128") = .err ∧ parseIntT 8 (txt "+127") = .ok 127 ∧
+    parseUintT 8 (txt "+1") = .err ∧ parseUintT 8 (txt "-0") = .err ∧ parseIntT 8 (txt "-0") = .ok 0 ∧
+    parseUintT 8 (txt "007") = .unmodelled ∧ parseUintT 16 (txt "") = .err := by decide +kernel
+
+/-- **`unquote ∘ split ∘ join ∘ quote = id`**: `encoding/csv` (settings of `NewCSVToFITConv`: no lazy quotes, no trimming of
+leading space, any number of fields) reads back the cells of a line, for ANY non-empty list of cells over ANY bytes, each
+written either as it is — when it holds neither `,` nor `"` — or between quotes with its quotes doubled (`writeCell`; the
+value cells, always between quotes, hold no quote: `enc_valueCellT`). Leading and trailing spaces, non-ASCII bytes,
+commas and quotes inside cells, empty cells all come back. Not in the statement: the line break and CR (10, 13) — a record
+is one line here; `bufio.ScanLines` and `encoding/csv` drop a CR before a line break, and a line break inside a quoted cell
+is cut by the `copy` pass (`format` removes both from string values: not printable). -/
+theorem C19_csv_quoting_roundtrip (cells : List Txt) (hne : cells ≠ []) :
+    csvRecord (joinComma (cells.map writeCellT)) = .record cells ∧
+    commasOutside false (joinComma (cells.map writeCellT)) = cells.length - 1 := by
+  have e1 : (cells.map fun c => (c, writeCellT c)).map (·.2) = cells.map writeCellT := by simp [List.map_map, Function.comp_def]
+  have e2 : (cells.map fun c => (c, writeCellT c)).map (·.1) = cells := by simp [List.map_map, Function.comp_def]
+  have henc : ∀ p ∈ cells.map fun c => (c, writeCellT c), Enc p.1 p.2 := by
+    intro p hp
+    obtain ⟨c, _, rfl⟩ := List.mem_map.mp hp
+    exact enc_writeCellT c
+  have h1 := csvRecord_join _ (by simpa using hne) henc
+  have h2 := commas_join _ (by simpa using hne) henc
+  rw [e1] at h1 h2
+  rw [e2] at h1
+  simp only [List.length_map] at h2
+  exact ⟨h1, h2⟩
+
+/-- units "m/s,m" (record.compressed_speed_distance), a name with a quote, leading and trailing spaces, an empty cell,
+non-ASCII bytes -/
+example : csvRecord (joinComma ([txt "m/s,m", txt "a\"b", txt " x ", [], txt "é"].map writeCellT)) =
+    .record [txt "m/s,m", txt "a\"b", txt " x ", [], txt "é"] := by decide +kernel
+
+/-- the lines of a text: no cell holds a line break -/
+theorem C19_lines_roundtrip (ls : List Txt) (h : ∀ l ∈ ls, ∀ b ∈ l, b ≠ 10) : splitLines (joinLines ls) = ls :=
+  splitLines_joinLines ls h
+
+/-- **Every line of the CSV has as many columns as the header — columns as `encoding/csv` counts them on the TEXT**
+(without the trim option): the converter never panics on a negative padding count (`csvText … = some …`) and every line
+of the text, the header included, is read as 3 + 3·(largest number of fields of a message) cells — for ANY chain of files
+(no scope hypothesis: names and units with separators or quotes are quoted by `writeCell`, the commas `copy` counts are
+exactly the separators between cells, KF-C19-2; lines of any length, KF-C19-7). Float text enters only through the fact
+that it holds no quote and no `|` (`FloatOK.chars`). -/
+theorem C19_columns_text (tp : TextParam) (hf : FloatOK tp) (o : Opts) (ht : o.trim = false) (files : List (List Message)) :
+    ∃ lines, csvText tp o (toCsv o files) = some lines ∧
+      ∀ x ∈ lines, ∃ cells, csvRecord x = .record cells ∧ cells.length = 3 + 3 * maxFields (toCsv o files) :=
+  columns_text tp hf o ht files
+
+/-- **FIT → CSV TEXT → FIT**: for every chain of files within `CsvUnambiguous` the converter writes a CSV text (header,
+one line per message, padded) which the reader — `encoding/csv` record by record, `createMesg` on the record's cells,
+`parseValue` with `strconv.ParseInt/ParseUint` on the text of every piece — turns back into the expected messages, in as
+many sequences as files. The cell-level theorem `C19_roundtrip` composed with: the text of a line scans back to its cells
+(`csvRecord_line`), padding commas are empty triples the reader passes over, every integer and string piece parses from
+its text to what the cell-level reader gives (`sim_int`, `sim_str`), and the reader over text pieces follows the reader
+over the writer's pieces step by step (`readLine_sim`). ASSUMED, as the explicit hypothesis `FloatOK tp`: whatever goes
+through `strconv.ParseFloat` / `FormatFloat` (float fields, the scaled mode, degrees). -/
+theorem C19_roundtrip_text (tp : TextParam) (hf : FloatOK tp) (o : Opts) (files : List (List Message)) (hne : files ≠ [])
+    (h : csvUnambiguousB o files = true) :
+    ∃ lines, csvText tp o (toCsv o files) = some lines ∧
+      fromCsvTextPre (Arith.so.withText tp) lines = .ok ⟨expected o files, files.length⟩ :=
+  roundtrip_text tp hf o files hne h
+
+/-- the text of the demo file's record line in raw mode (integers only: no assumption involved), and what the reader
+makes of the whole text -/
+def tpNoFloat : TextParam := { floatText := fun _ => [], readFloat := fun _ _ _ _ _ _ => .unmodelled }
+
+example : (csvText tpNoFloat { raw := true } (toCsv { raw := true } [demoFull])).map (·.drop 4 |>.head!) =
+    some (txt "Data,0,record,distance,\"16039\",m,cycles,\"3\",cycles,total_cycles,\"3\",cycles,dev0_x,\"7\",bpm,,,") := by decide +kernel
+
+example : (match csvText tpNoFloat { raw := true } (toCsv { raw := true } [demoFull, demoFull]) with
+    | some lines => (match fromCsvTextPre (Arith.so.withText tpNoFloat) lines with
+        | .ok b => b.seqs == expected { raw := true } [demoFull, demoFull] && b.seq == 2
+        | _ => false)
+    | none => false) = true := by decide +kernel
 
 end Fit.C19
